@@ -304,7 +304,9 @@ class Report:
         self.broken.append({"name": name, "detail": detail})
 
     def finish(self):
-        known = [k for k in load_known() if k["property"] == self.pid]
+        # a check may also run the correspondence unit of a neighbouring property (the model its theorems rely on); a finding listed
+        # under that property is the same finding when it is seen through this check (classes carry their property as prefix)
+        known = [k for k in load_known() if k["property"] == self.pid or str(k.get("cls", "")).startswith(k["property"] + "/")]
         unlisted = []
         printed_known = set()
         for v in self.violations:
